@@ -64,10 +64,27 @@ def run_case(case):
     cfg = boundary.gen_case_cfg(g)
     shown = {k: cfg.get(k) for k in ("sampler", "xp", "dtype", "n", "opts", "precond", "outside_mode", "recipe", "resume", "cut_below")}
     where = f"{shown}"
-    out = boundary.execute(cfg)
+    try:
+        out = boundary.execute(cfg)
+    except boundary.DegenerateWorkload as exc:
+        counters["degenerate_population_not_judged"] += 1
+        return {"viol": [], "counters": dict(counters), "nontrivial": [], "sample": {"where": shown, "not_judged": str(exc)}}
     counters["runs"] += 1
     counters["recipe_runs"] += int(cfg["recipe"])
     judge_probe(out["probe"], out["reported"], where, viol, counters)
+    # the same configuration with the likelihood failing at one of its calls: the figure read afterwards still has to be
+    # the number of points the callable was asked for (the failing batch was asked for)
+    if cfg["sampler"] in ("smc", "emcee_smc", "importance") and out["probe"].n_like_calls >= 1:
+        from ..harness import InjectedFault
+
+        k = int(g.integers(0, out["probe"].n_like_calls)) if cfg["sampler"] != "emcee_smc" else 0
+        pf, reported_f, exc = boundary.execute_with_fault(cfg, k)
+        if isinstance(exc, InjectedFault):
+            counters["counts_compared_after_fault"] += 1
+            if reported_f != pf.asked_rows:
+                viol.append({"mech": "C17/reported-evaluation-count-wrong-after-failing-call", "detail": f"{where}: likelihood raised at its call {k}; reported {reported_f}, asked for {pf.asked_rows} points in {pf.n_like_calls} calls"})
+        elif exc is not None and not isinstance(exc, boundary.DegenerateWorkload):
+            raise exc
     if "resumed" in out:
         r = out["resumed"]
         judge_probe(r["probe"], r["reported"], where + f" [resumed from iteration {r['from_iteration']}]", viol, counters)
